@@ -62,6 +62,8 @@ def units(tier, seed, label):
             for normalize in (False, True):
                 us.append(('truncate', n, a, min(len(sp), a + chunk), normalize, tier))
     us.append(('trunc_error_algebra',))
+    for shard in range(4):
+        us.append(('qr_bond', shard, 4, tier, seed))
     for kind in ('svd_theta', 'eigh_rho', 'qr_based'):
         for shard in range(4 if tier == 'quick' else 8):
             us.append((kind, shard, 4 if tier == 'quick' else 8, tier, seed))
@@ -406,6 +408,10 @@ def run_decomp(unit):
                             bad('eigh_rho:not-eigenvectors', '%s %s' % (name, opt), case)
                         if np.abs(np.sort(lam)[::-1] - np.sort(wfull)[::-1][:len(W)]).max() > 1e-9 * max(1, wfull.max()):
                             bad('eigh_rho:kept-not-largest', '%s %s' % (name, opt), case)
+                        # documented: the kept eigenvalues are rescaled by 1/(1-eps), i.e. W sums to trace(rho) again
+                        kept_ref = np.sort(wfull)[::-1][:len(W)]
+                        if abs(np.sum(W) - wfull.sum()) > 1e-9 * max(1, wfull.sum()) or np.abs(np.sort(W)[::-1] - kept_ref * wfull.sum() / kept_ref.sum()).max() > 1e-9 * max(1, wfull.max()):
+                            bad('eigh_rho:W-renormalization', '%s %s: returned W %s, kept eigenvalues rescaled to the full trace are %s' % (name, opt, np.sort(W)[::-1], kept_ref * wfull.sum() / kept_ref.sum()), case)
                         if len(W) < len(wfull):
                             keys.add((kind, name, io))
                     else:
@@ -451,7 +457,85 @@ def run_decomp(unit):
     return dict(evaluations=ev, keys=[str(k) for k in keys], violations=viol, samples=samples)
 
 
+def run_qr_bond(unit):
+    """decompose_theta_qr_based on theta = T_L . diag(w) . T_R with an explicit old bond leg, for every subset of
+    old-bond charge sectors carrying no weight (missing blocks in theta), both sweep directions, several chi_max:
+    with full expansion of the bond (every column of every sector is kept in the initial guess) the QR-based
+    result is algebraically the exact truncated SVD, whatever heuristics select the guess.  (The accuracy of the guess
+    for small `expand` is a quality-of-approximation matter the property does not speak about.)"""
+    import itertools
+    import tenpy.linalg.np_conserved as npc
+    from tenpy.linalg import truncation
+    _, shard, nshards, tier, seed = unit
+    viol, keys = [], set()
+    ev = 0
+    sample = None
+    cases = []
+    for chname, mod, pq, vLq, vbq, vRq in [
+            ('U1', [1], [0, 1], [-1, -1, 0, 0, 0, 1, 1, 2], [0, 0, 1, 1, 1, 2, 2], [0, 0, 1, 1, 1, 2, 2, 3]),
+            ('Z2', [2], [0, 1], [0, 0, 0, 1, 1, 1], [0, 0, 0, 1, 1], [0, 0, 1, 1, 1]),
+            ('Z3', [3], [0, 1], [0, 0, 1, 1, 2, 2], [2, 2, 0, 0, 1], [0, 1, 1, 2, 2])]:
+        sectors = sorted(set(vbq))
+        for r in range(0, len(sectors)):
+            for empty in itertools.combinations(sectors, r):
+                for move_right in (True, False):
+                    for chi in (None, 2, 3):
+                        cases.append((chname, mod, pq, vLq, vbq, vRq, empty, move_right, chi))
+    for ci, (chname, mod, pq, vLq, vbq, vRq, empty, move_right, chi) in enumerate(cases):
+        if ci % nshards != shard:
+            continue
+        ev += 1
+        case = dict(kind='qr_bond', ch=chname, empty=list(empty), move_right=move_right, chi_max=chi, seed=seed)
+        rng = np.random.default_rng([seed, ci])
+        chinfo = npc.ChargeInfo(mod, ['q'])
+        p = npc.LegCharge.from_qflat(chinfo, pq)
+        vL = npc.LegCharge.from_qflat(chinfo, vLq)
+        vb = npc.LegCharge.from_qflat(chinfo, vbq)
+        vR = npc.LegCharge.from_qflat(chinfo, vRq)
+        try:
+            with warnings.catch_warnings():
+                warnings.simplefilter('ignore')
+                T_L = npc.Array.from_func(rng.normal, [vL, p, vb.conj()], shape_kw='size', labels=['vL', 'p0', 'vR'])
+                T_R = npc.Array.from_func(rng.normal, [vb, p, vR.conj()], shape_kw='size', labels=['vL', 'p1', 'vR'])
+                w = 0.5 + rng.random(vb.ind_len)
+                for q in empty:
+                    w[np.asarray(vbq) == q] = 0.0
+                T_Lw = T_L.scale_axis(w, 'vR')
+                T_Lw.ipurge_zeros()
+                theta = npc.tensordot(T_Lw, T_R, ['vR', 'vL']).combine_legs([['vL', 'p0'], ['p1', 'vR']])
+                if theta.norm() == 0:
+                    continue
+                dense = theta.to_ndarray()
+                nrm = np.linalg.norm(dense)
+                full_S = np.linalg.svd(dense, compute_uv=False)
+                opt = dict(chi_max=chi, svd_min=1e-12, trunc_cut=None)
+                TL, S, TR, form, err, renorm = truncation.decompose_theta_qr_based(
+                    T_L.qtotal, T_R.qtotal, T_R.get_leg('vL'), theta, move_right=move_right, expand=10.0, min_block_increase=8,
+                    use_eig_based_svd=False, trunc_params=opt, compute_err=True, return_both_T=True)
+                approx = npc.tensordot(TL.scale_axis(S * renorm, 'vR'), TR, axes=['vR', 'vL']).to_ndarray()
+            eps = np.linalg.norm(dense - approx) ** 2 / nrm ** 2
+            nkeep = len(S)
+            ref = np.sort(full_S)[::-1]
+            n_nonzero = int(np.sum(ref > 1e-10 * ref[0]))
+            want = n_nonzero if chi is None else min(chi, n_nonzero)
+            what = '%s empty=%s move_right=%s chi_max=%s' % (chname, list(empty), move_right, chi)
+            if abs(eps - err.eps) > 1e-10:
+                viol.append(dict(key='qr_bond:error-mismatch', what='%s: true error %g, reported %g' % (what, eps, err.eps), case=case))
+            elif nkeep != want or np.abs(np.sort(S * renorm / nrm)[::-1] - ref[:nkeep] / nrm).max() > 1e-8:
+                viol.append(dict(key='qr_bond:not-the-largest-singular-values', what='%s: kept %d values %s, dense SVD has %d non-zero: %s' % (
+                    what, nkeep, np.sort(S * renorm / nrm)[::-1], n_nonzero, ref[:max(nkeep, want)] / nrm), case=case))
+            if empty:
+                keys.add(str(sorted(case.items())))
+            sample = case
+        except Exception as e:  # noqa: BLE001
+            import traceback
+            viol.append(dict(key='qr_bond:exception:' + type(e).__name__, what=traceback.format_exc()[-1000:], case=case))
+    return dict(evaluations=ev, keys=keys, violations=viol[:10], samples=[sample] if sample else [])
+
+
 def run_unit(unit):
+    if unit[0] == 'qr_bond':
+        return run_qr_bond(unit)
     if unit[0] == 'truncate':
         return run_truncate(unit)
     if unit[0] == 'trunc_error_algebra':
@@ -467,6 +551,10 @@ def replay(case):
         return dict(evaluations=1, violations=v)
     if case.get('kind') == 'algebra':
         return run_algebra(('trunc_error_algebra',))
+    if case.get('kind') == 'qr_bond':
+        r = run_qr_bond(('qr_bond', 0, 1, 'quick', case.get('seed', 0)))
+        r['violations'] = [v for v in r['violations'] if v['case'] == case]
+        return r
     res = dict(evaluations=0, violations=[])
     for shard in range(4):
         r = run_decomp((case['kind'], shard, 4, 'quick', case.get('seed', 0)))
